@@ -179,13 +179,41 @@ Proof.
   unfold grd_fixed. destruct (gparse_padding st n) eqn:H1; cbn [bind]; [|discriminate|exfalso; eapply gparse_padding_nopanic; eassumption].
   destruct (gnext_slice a n) as [[b st2]| |] eqn:H2; cbn [bind]; [discriminate|discriminate|exfalso; eapply gnext_slice_nopanic; eassumption].
 Qed.
-Lemma parse_sig_stack_panic raw p : parse_sig_stack raw = Panic p -> p = PStack.
-Proof. unfold parse_sig_stack. destruct (_ <? _); [congruence|]. destruct (parse_sig _ _); discriminate. Qed.
+Lemma sig_nest_le : forall l o q b, sig_nest l o q b <= N.max b (o + q + len l).
+Proof.
+  induction l as [|c r IH]; intros o q b; cbn [sig_nest]; [lia|]. rewrite len_cons.
+  destruct (beq c "a"%byte || beq c "m"%byte); [specialize (IH o (q + 1) (N.max b (o + q + 1))); lia|].
+  destruct (beq c "("%byte || beq c "{"%byte); [specialize (IH (o + 1) 0 (N.max b (o + q + 1))); lia|].
+  destruct (beq c ")"%byte || beq c "}"%byte); [specialize (IH (o - 1) 0 b); lia|].
+  specialize (IH o 0 b); lia.
+Qed.
+Lemma parse_sig_stack_panic raw p : parse_sig_stack raw = Panic p -> p = PStack /\ stack_limit < len raw.
+Proof.
+  unfold parse_sig_stack. destruct (N.ltb_spec stack_limit (sig_nest raw 0 0 0)).
+  - intros [= <-]. split; [reflexivity|]. pose proof (sig_nest_le raw 0 0 0). lia.
+  - destruct (parse_sig _ _); discriminate.
+Qed.
+Lemma len_takeN_le {A} n (l : list A) : N.of_nat (length (takeN n l)) <= n.
+Proof. unfold takeN. pose proof (firstn_le_length (N.to_nat n) l). lia. Qed.
+Lemma len_removelast_le {A} (l : list A) : (length (removelast l) <= length l)%nat.
+Proof. induction l as [|x [|y r] IH]; cbn [removelast length] in *; lia. Qed.
+Lemma gde_str_len st s st' : gde_str st = Ok (s, st') -> len s <= r_len st - r_pos st.
+Proof.
+  unfold gde_str. destruct (r_sig st); try discriminate;
+    (destruct (_ <? _); [discriminate|]; destruct (negb _); [discriminate|]; destruct (utf8_valid _); [|discriminate];
+     intros [= <- _]; unfold strip_nul;
+     match goal with |- len (match ?l with [] => _ | _ => _ end) <= _ => pose proof (len_takeN_le (r_len st - r_pos st) (r_rest st)) as Ht; destruct l eqn:Hl; [cbn; lia|] end;
+     rewrite <- Hl in *; destruct (is_zero _); unfold len; [pose proof (len_removelast_le (takeN (r_len st - r_pos st) (r_rest st))); lia|lia]).
+Qed.
 Lemma inc_nopanic d p : inc_array d <> Panic p /\ inc_struct d <> Panic p /\ inc_variant d <> Panic p /\ inc_maybe d <> Panic p.
 Proof.
   unfold inc_array, inc_struct, inc_variant, inc_maybe, dcheck.
   repeat split; repeat match goal with |- (if ?c then _ else _) <> _ => destruct c end; discriminate.
 Qed.
+
+Lemma inc_variant_np d p : inc_variant d <> Panic p. Proof. apply inc_nopanic. Qed.
+Lemma inc_struct_np d p : inc_struct d <> Panic p. Proof. apply inc_nopanic. Qed.
+Lemma inc_maybe_np d p : inc_maybe d <> Panic p. Proof. apply inc_nopanic. Qed.
 
 (* ---------- standalone forms of gde_gen's loops ---------- *)
 Section Loops.
@@ -323,9 +351,10 @@ Section NP.
   (* what a panic of the tuple-offset reader tells, when it is called with the width chosen for the tuple *)
   Hypothesis Hrl : forall st a b w p, for_encoded_container (r_len st - a) = Ok w -> rl st a b w = Panic p -> P st p.
 
-  Definition bad (st : dst) (p : panic) : Prop := p = PStack \/ exists st', r_len st' <= r_len st /\ P st' p.
+  Definition bad (st : dst) (p : panic) : Prop :=
+    (p = PStack /\ stack_limit < r_len st) \/ exists st', r_len st' <= r_len st /\ P st' p.
   Lemma bad_mono st1 st2 p : r_len st1 <= r_len st2 -> bad st1 p -> bad st2 p.
-  Proof. intros H [->|(st' & H1 & H2)]; [now left|]. right. exists st'. split; [lia|assumption]. Qed.
+  Proof. intros H [[-> Hs]|(st' & H1 & H2)]; [left; split; [reflexivity|lia]|]. right. exists st'. split; [lia|assumption]. Qed.
 
   Definition dec_ok (dec : dst -> res cerr (gval * dst)) : Prop := forall st p, wfst st -> dec st = Panic p -> bad st p.
 
@@ -375,7 +404,7 @@ Section NP.
     apply bind_panic in H as [H|([ee offs'] & Hpop & H)].
     { destruct offs as [[|o r]|]; discriminate. }
     apply bind_panic in H as [H|(value_end & Hve & H)].
-    { destruct kos; [destruct (_ <? _)|]; discriminate. }
+    { destruct kos; [|discriminate]. match type of H with (if ?c then _ else _) = _ => destruct c; discriminate end. }
     apply bind_panic in H as [H|(vsub & Hvsub & H)]; [exfalso; eapply gsub_nopanic; eassumption|].
     apply gsub_ok in Hvsub; [|rewrite r_len_adv; lia]. destruct Hvsub as (Hwfv & Hlev & _ & _). rewrite r_len_adv in Hlev.
     apply bind_panic in H as [H|([vv vsub'] & Hdv & H)].
@@ -398,13 +427,11 @@ Section NP.
     intros Hdec. induction gs as [|g r IH]; intros st end_ ol acc p Hl Hw H; [discriminate|].
     cbn [struct_loop] in H.
     apply bind_panic in H as [H|([[element_end end'] ol'] & Hee & H)].
-    { destruct (fixed_sized g); [discriminate|]. destruct r; [|discriminate].
-      - destruct (_ || _); [discriminate|].
-        apply bind_panic in H as [H|(o & _ & H)]; [|destruct (_ <? _); discriminate].
-        right. exists st. split; [lia|]. eapply Hrl; eassumption.
-      - destruct (_ || _); [discriminate|].
-        apply bind_panic in H as [H|(o & _ & H)]; [|destruct (_ <? _); discriminate].
-        right. exists st. split; [lia|]. eapply Hrl; eassumption. }
+    { destruct (fixed_sized g); [discriminate|]. destruct r; [discriminate|]. cbv iota in H.
+      match type of H with (if ?c then _ else _) = _ => destruct c; [discriminate|] end.
+      apply bind_panic in H as [H|(o & _ & H)].
+      - right. exists st. split; [lia|]. eapply Hrl; eassumption.
+      - match type of H with (if ?c then _ else _) = _ => destruct c; discriminate end. }
     apply bind_panic in H as [H|(sub & Hsub & H)]; [exfalso; eapply gsub_nopanic; eassumption|].
     apply gsub_ok in Hsub; [|assumption]. destruct Hsub as (Hwf & Hle & _ & _).
     apply bind_panic in H as [H|([v sub'] & Hd & H)].
@@ -414,4 +441,146 @@ Section NP.
     - destruct r; cbn; assumption.
     - destruct r; cbn; assumption.
   Qed.
+
+  Ltac bp H := apply bind_panic in H as [H|(?a & ?Heq & H)].
+
+  Theorem gde_gen_np : forall fuel, dec_ok (gde_gen rl fuel).
+  Proof.
+    induction fuel as [|f IH]; intros st p Hwf H; [discriminate|].
+    assert (Hlen : r_len st < 18446744073709551616) by apply Hwf.
+    destruct (r_sig st) eqn:Hsig;
+      try (cbn [gde_gen] in H; rewrite Hsig in H; cbv zeta in H;
+           apply bind_panic in H as [H|([x st1] & _ & H)]; [exfalso; eapply grd_fixed_nopanic; eassumption|discriminate]).
+    - (* unit *) cbn [gde_gen] in H. rewrite Hsig in H. discriminate.
+    - (* bool *) cbn [gde_gen] in H. rewrite Hsig in H.
+      apply bind_panic in H as [H|([x st1] & _ & H)]; [exfalso; eapply grd_fixed_nopanic; eassumption|].
+      destruct (x =? 1); [discriminate|]. destruct (x =? 0); discriminate.
+    - (* str *) cbn [gde_gen] in H. rewrite Hsig in H.
+      apply bind_panic in H as [H|([x st1] & _ & H)]; [exfalso; eapply gde_str_nopanic; eassumption|].
+      apply bind_panic in H as [H|(v & _ & H)]; [exfalso; eapply gstr_value_nopanic; eassumption|discriminate].
+    - (* sig *) cbn [gde_gen] in H. rewrite Hsig in H.
+      apply bind_panic in H as [H|([x st1] & _ & H)]; [exfalso; eapply gde_str_nopanic; eassumption|].
+      apply bind_panic in H as [H|(v & _ & H)]; [exfalso; eapply gstr_value_nopanic; eassumption|discriminate].
+    - (* path *) cbn [gde_gen] in H. rewrite Hsig in H.
+      apply bind_panic in H as [H|([x st1] & _ & H)]; [exfalso; eapply gde_str_nopanic; eassumption|].
+      apply bind_panic in H as [H|(v & _ & H)]; [exfalso; eapply gstr_value_nopanic; eassumption|discriminate].
+    - (* variant *) cbn [gde_gen] in H. rewrite Hsig in H.
+      apply bind_panic in H as [H|(st1 & Hp1 & H)]; [exfalso; eapply gparse_padding_nopanic; eassumption|].
+      apply gparse_padding_ok in Hp1; [|assumption]. destruct Hp1 as (Hwf1 & Hl1 & _ & _ & _).
+      apply bind_panic in H as [H|(st2 & Hp2 & H)]; [exfalso; eapply gparse_padding_nopanic; eassumption|].
+      apply gparse_padding_ok in Hp2; [|assumption]. destruct Hp2 as (Hwf2 & Hl2 & _ & _ & _).
+      destruct (r_len st2 =? 0); [discriminate|].
+      destruct (N.ltb_spec (r_len st2) (r_pos st2)); [destruct Hwf2; lia|].
+      destruct (last_nul _ 0 None) as [i|]; [|discriminate].
+      apply bind_panic in H as [H|(sst & Hs1 & H)]; [exfalso; eapply gsub_nopanic; eassumption|].
+      apply gsub_ok in Hs1; [|destruct Hwf2; assumption]. destruct Hs1 as (Hwfs & Hles & _ & _).
+      apply bind_panic in H as [H|([s sst'] & Hstr & H)]; [exfalso; eapply gde_str_nopanic; eassumption|].
+      apply gde_str_len in Hstr.
+      apply bind_panic in H as [H|(g0 & _ & H)].
+      { apply parse_sig_stack_panic in H as [-> Hlim]. left. split; [reflexivity|lia]. }
+      apply bind_panic in H as [H|(g & _ & H)].
+      { apply parse_sig_stack_panic in H as [-> Hlim]. left. split; [reflexivity|].
+        match type of Hlim with _ < len (takeN ?n ?l) => pose proof (len_takeN_le n l) as Ht; unfold len in Hlim end. lia. }
+      apply bind_panic in H as [H|(vst0 & Hs2 & H)]; [exfalso; eapply gsub_nopanic; eassumption|].
+      apply gsub_ok in Hs2; [|destruct Hwf2; assumption]. destruct Hs2 as (Hwfv & Hlev & _ & _).
+      apply bind_panic in H as [H|(d & _ & H)]; [exfalso; eapply inc_variant_np; eassumption|].
+      apply bind_panic in H as [H|([v vst'] & _ & H)]; [|discriminate].
+      eapply bad_mono; [|apply (IH (rset_dep vst0 d) p); [exact Hwfv|exact H]]. cbn. lia.
+    - (* fd *) cbn [gde_gen] in H. rewrite Hsig in H.
+      apply bind_panic in H as [H|([x st1] & _ & H)]; [exfalso; eapply grd_fixed_nopanic; eassumption|].
+      destruct (nthN _ _); discriminate.
+    - (* array *) match type of Hsig with _ = SArray ?c0 => rename c0 into c end. rewrite (gde_gen_array rl f st c Hsig) in H.
+      apply bind_panic in H as [H|(st1 & Hp1 & H)]; [exfalso; eapply gparse_padding_nopanic; eassumption|].
+      apply gparse_padding_ok in Hp1; [|assumption]. destruct Hp1 as (Hwf1 & Hl1 & _ & _ & _).
+      destruct (garr_new_spec st1 Hwf1) as [Hnp Hok].
+      apply bind_panic in H as [H|([st2 a] & Hnew & H)]; [exfalso; eapply Hnp; eassumption|].
+      destruct (Hok st2 a Hnew) as (Hwf2 & Hl2 & _).
+      apply bind_panic in H as [H|([l st3] & _ & H)]; [|discriminate].
+      apply (arr_loop_np _ a c IH) in H; [|apply Hwf2]. eapply bad_mono; [|exact H]. lia.
+    - (* dict *) match type of Hsig with _ = SDict ?k0 ?v0 => rename k0 into k; rename v0 into v end. rewrite (gde_gen_dict rl f st k v Hsig) in H.
+      apply bind_panic in H as [H|(st1 & Hp1 & H)]; [exfalso; eapply gparse_padding_nopanic; eassumption|].
+      apply gparse_padding_ok in Hp1; [|assumption]. destruct Hp1 as (Hwf1 & Hl1 & _ & _ & _).
+      destruct (garr_new_spec st1 Hwf1) as [Hnp Hok].
+      apply bind_panic in H as [H|([st2 a] & Hnew & H)]; [exfalso; eapply Hnp; eassumption|].
+      destruct (Hok st2 a Hnew) as (Hwf2 & Hl2 & Hst & Hal & Hoffs).
+      apply bind_panic in H as [H|([l st3] & _ & H)]; [|discriminate].
+      apply (dict_loop_np _ a k v IH) in H; try assumption; [|apply Hwf2]. eapply bad_mono; [|exact H]. lia.
+    - (* tuple *) match type of Hsig with _ = SStruct ?f0 => rename f0 into fs end. rewrite (gde_gen_struct rl f st fs Hsig) in H.
+      apply bind_panic in H as [H|(st1 & Hp1 & H)]; [exfalso; eapply gparse_padding_nopanic; eassumption|].
+      apply gparse_padding_ok in Hp1; [|assumption]. destruct Hp1 as (Hwf1 & Hl1 & _ & _ & _).
+      apply bind_panic in H as [H|(st2 & Hp2 & H)]; [exfalso; eapply gparse_padding_nopanic; eassumption|].
+      apply gparse_padding_ok in Hp2; [|assumption]. destruct Hp2 as (Hwf2 & Hl2 & _ & _ & _).
+      apply bind_panic in H as [H|(d & _ & H)]; [exfalso; eapply inc_struct_np; eassumption|].
+      cbv zeta in H. cbn [rset_dep r_pos r_len] in H.
+      destruct (N.ltb_spec (r_len st2) (r_pos st2)); [destruct Hwf2; lia|].
+      apply bind_panic in H as [H|(w & Hw & H)]; [exfalso; eapply for_encoded_nopanic; [|exact H]; destruct Hwf2; lia|].
+      apply bind_panic in H as [H|([l st3] & _ & H)]; [|discriminate].
+      apply (struct_loop_np _ _ _ IH) in H; [|apply Hwf2|exact Hw]. eapply bad_mono; [|exact H]. cbn. lia.
+    - (* maybe *) match type of Hsig with _ = SMaybe ?c0 => rename c0 into c end. cbn [gde_gen] in H. rewrite Hsig in H.
+      apply bind_panic in H as [H|(st1 & Hp1 & H)]; [exfalso; eapply gparse_padding_nopanic; eassumption|].
+      apply gparse_padding_ok in Hp1; [|assumption]. destruct Hp1 as (Hwf1 & Hl1 & _ & _ & _).
+      cbv zeta in H. destruct (N.eqb_spec (r_pos st1) (r_len st1)); [discriminate|].
+      apply bind_panic in H as [H|(end_ & He & H)].
+      { destruct (fixed_sized c); [discriminate|]. destruct (N.eqb_spec (r_len st1) 0); [destruct Hwf1; lia|discriminate]. }
+      apply bind_panic in H as [H|(sub0 & Hs & H)]; [exfalso; eapply gsub_nopanic; eassumption|].
+      apply gsub_ok in Hs; [|apply Hwf1]. destruct Hs as (Hwfs & Hles & _ & _).
+      apply bind_panic in H as [H|(d & _ & H)]; [exfalso; eapply inc_maybe_np; eassumption|].
+      apply bind_panic in H as [H|([v sub'] & _ & H)].
+      { eapply bad_mono; [|apply (IH (rset_dep sub0 d) p); [exact Hwfs|exact H]]. cbn. lia. }
+      destruct (fixed_sized c); [discriminate|]. destruct (_ <=? _); [discriminate|].
+      destruct (r_rest _); [discriminate|]. destruct (is_zero _); discriminate.
+  Qed.
 End NP.
+
+(* ---------- instances ---------- *)
+(* with the checked reader (the proposed repair) the decoder never panics, on any input *)
+Theorem gde_repaired_nopanic fuel st p : wfst st -> gde_repaired fuel st = Panic p -> p = PStack /\ stack_limit < r_len st.
+Proof.
+  intros Hwf H. destruct (gde_gen_np read_last_checked (fun _ _ => False)) with (fuel := fuel) (st := st) (p := p) as [Hp|(st' & _ & [])];
+    try assumption.
+  intros st0 a b w p0 _ Hx. exfalso. eapply read_last_checked_nopanic; eassumption.
+Qed.
+
+(* the code as it is: every panic other than the parser's stack is the subtraction in read_last_offset_from_buffer,
+   reached on a window of at least 256 bytes *)
+Theorem gde_panics fuel st p : wfst st -> gde fuel st = Panic p ->
+  (p = PStack /\ stack_limit < r_len st) \/ (p = PArith /\ 256 <= r_len st).
+Proof.
+  intros Hwf H.
+  destruct (gde_gen_np read_last (fun s q => q = PArith /\ 256 <= r_len s)) with (fuel := fuel) (st := st) (p := p) as [Hp|(st' & Hle & Hq & H256)];
+    try assumption.
+  - intros st0 a b w p0 Hw Hx. unfold read_last in Hx. destruct (N.eqb_spec (b - a) 0); [discriminate|].
+    destruct (N.ltb_spec (b - a) w); [|discriminate]. injection Hx as <-. split; [reflexivity|].
+    assert (2 <= w) by lia. apply for_encoded_small in Hw; [lia|assumption].
+  - now left.
+  - right. split; [assumption|lia].
+Qed.
+
+Corollary gde_small_nopanic fuel st p : wfst st -> r_len st < 256 -> gde fuel st <> Panic p.
+Proof.
+  intros Hwf Hs H. destruct (gde_panics fuel st p Hwf H) as [[_ Hge]|[_ Hge]]; [|lia].
+  unfold stack_limit in Hge. lia.
+Qed.
+
+(* ---------- the entry points ---------- *)
+Lemma wfst_init e pos g b fds : len b < 18446744073709551616 -> wfst (ginit_dst e pos g b fds).
+Proof. intros H. unfold wfst, ginit_dst; cbn. lia. Qed.
+
+Definition panic_of {A} (r : res cerr A) : option panic := match r with Panic p => Some p | _ => None end.
+Lemma panic_of_bind {A B} (r : res cerr A) (f : A -> res cerr B) p :
+  (forall a q, f a <> Panic q) -> bind r f = Panic p -> r = Panic p.
+Proof. intros Hf H. apply bind_panic in H as [H|(a & _ & H)]; [assumption|]. exfalso. eapply Hf; eassumption. Qed.
+
+Theorem gde_tops_panics e pos g b fds p : len b < 18446744073709551616 ->
+  gde_value_top e pos b fds = Panic p \/ gde_struct_top e pos g b fds = Panic p \/ gde_typed_top e pos g b fds = Panic p ->
+  (p = PStack /\ stack_limit < len b) \/ (p = PArith /\ 256 <= len b).
+Proof.
+  intros Hb H.
+  assert (Hgen : forall g0, gde gde_fuel (ginit_dst e pos g0 b fds) = Panic p ->
+                 (p = PStack /\ stack_limit < len b) \/ (p = PArith /\ 256 <= len b)).
+  { intros g0 H0. apply gde_panics in H0; [exact H0|now apply wfst_init]. }
+  destruct H as [H|[H|H]].
+  - unfold gde_value_top in H. apply panic_of_bind in H; [now apply Hgen in H|]. intros [v st] q. destruct v; discriminate.
+  - unfold gde_struct_top in H. apply panic_of_bind in H; [now apply Hgen in H|]. intros [v st] q. discriminate.
+  - unfold gde_typed_top in H. apply panic_of_bind in H; [now apply Hgen in H|]. intros [v st] q. discriminate.
+Qed.
